@@ -804,6 +804,12 @@ def round16_entries():
     out.append(("inline-asm-twins.invoke-callbr", 'define void @f() personality i8* null {\n\tcall void asm sideeffect "nop", ""()\n\tinvoke void asm sideeffect unwind "nop", ""()\n\t\tto label %a unwind label %b\n\na:\n'
                 '\tcallbr void asm sideeffect alignstack "nop", ""()\n\t\tto label %c []\n\nb:\n\t%l = landingpad i8\n\t\tcleanup\n\tret void\n\nc:\n\tcall void asm sideeffect "nop", ""()\n\tret void\n}\n',
                 ['call void asm sideeffect "nop", ""()', 'invoke void asm sideeffect unwind "nop", ""()', 'callbr void asm sideeffect alignstack "nop", ""()']))
+    # the EMPTY local name `%""` (a value, a parameter, a block): an unnamed local, numbered like every other one — not an explicit `%0`
+    out.append(("empty-local-name.value", 'define i32 @g(i32 %0) {\n\t%"" = add i32 1, 2\n\tret i32 %2\n}\n', ["\t%2 = add i32 1, 2\n\tret i32 %2\n"]))
+    out.append(("empty-local-name.param", 'define i32 @g(i32 %0, i32 %"") {\n\tret i32 %1\n}\n\ndeclare void @d(i32 %0, i32 %"")\n', ["define i32 @g(i32 %0, i32 %1) {\n", "\tret i32 %1\n", "declare void @d(i32 %0, i32 %1)"]))
+    # a boolean literal at a NAMED i1 type keeps the type it was written at (one-step fixpoint)
+    out.append(("named-i1.bool-literal", '%B = type i1\n\n@g = global { %B } { %B 1 }\n@h = global { %B, i1 } { %B false, i1 true }\n\ndefine %B @f(%B %x) {\n\t%y = xor %B %x, true\n\tret %B false\n}\n',
+                ["@g = global { %B } { %B true }", "@h = global { %B, i1 } { %B false, i1 true }", "\t%y = xor %B %x, true\n\tret %B false\n"]))
     # attribute strings whose ONLY byte that needs an escape is a backslash, directly followed by two hexadecimal digits or by another backslash (a printer that
     # copies "harmless" strings unescaped turns `\5CDe` into the escape `\De`): every site that prints a string attribute, key and value
     for i, (src, canon) in enumerate((("C:\\5CDev", "C:\\5CDev"), ("a\\5C\\5C41", "a\\5C\\5C41"), ("\\\\00", "\\5C00"), ("x\\5Cff", "x\\5Cff"))):
